@@ -25,6 +25,7 @@ TABLE: List[Entry] = [
     # a change without its event leaves a watcher asleep: validity / fixpoint, not termination
     ("R-EVENTS-EXACT", None, None, {"C01", "C02", "C08"}),
     ("R-WRITEBACK-MONO", None, "no-emptiness-check", {"C01", "C02", "C08", "C13"}),
+    ("R-WRITEBACK-MONO", None, "tightening-untested", {"C01", "C02", "C08", "C13"}),  # a dropped tightening is not a termination matter
     ("R-WRITEBACK-MONO", None, None, {"C01", "C02", "C08", "C04", "C13"}),
     ("R-QUEUE-DRAIN", None, None, {"C01", "C02", "C08", "C13"}),
     ("R-QUEUE-WRITERS", None, None, {"C01", "C02", "C08", "C13"}),
